@@ -19,7 +19,7 @@ class H(Harness):
     QUICK_N = 500
     THOROUGH_N = 5000
     CASE_TIMEOUT = 240         # a law case is thousands of runs of the implementation
-    LAW_STEP = {'quick': 250, 'thorough': 2500}
+    LAW_STEP = {'quick': 500, 'thorough': 4000}
     RULE = ('random ScriptProcess tables under synchronous dynamics: per-element and fixed-rate events with probabilities from '
             '{0, 1/4, 1/2, 3/4, 1}, trial values scripted as multiples of 1/8 so that r == p occurs, posted events interleaved, handlers that '
             'mutate loci; non-trivial = at least 2 steps with a non-empty tranche; distinct by (table, seed).  Laws: SIR, SIS, SIRS, SEIR, '
